@@ -111,10 +111,10 @@ P("C14", "model_checking", rac=["structure"],
   bounded="parsed chain structure == structure the input was rendered from: 22 operators x deferred x 12 (thorough 20) operand shapes, all adjacent operator pairs x 4 deferred patterns, 10 wrappers x 22 inner operators x 3 closing shapes",
   not_decided="operands outside the pool; split-point logic inside syn")
 
-P("C17", "proof", kani={"timeout": "1500s", "compile_clause": True},
+P("C17", "proof", kani={"timeout": "1500s", "compile_clause": True}, native=True,
   unbounded="separate_block_expr names the k-th hoisted operand of action i of branch b __ew{b}_{i}_{k} (verified for all operand lists); every name constructor emits prefix ++ dec(i) (++ sep ++ dec(j) ++ sep ++ dec(k)) with the pieces as they stand in the source; injectivity within a family and pairwise distinctness of all families for ALL indices (lemma_names_never_clash)",
-  bounded="12 x 12 program with block captures on every action; 11 named branches with handler; nesting of the 4 executable kinds to depth 3 inside operands, captures and handlers",
-  not_decided="identifier literals inside quote! bodies vs user identifiers (macro hygiene); spawn kinds")
+  bounded="12 x 12 program with block captures on every action; 11 named branches with handler; nesting of the 4 executable kinds to depth 3 inside operands, captures and handlers; 6 native programs nest the thread- and tokio-spawning kinds inside spawned branches (depth 2-3): they must compile (Send + 'static across the levels) and give the documented values",
+  not_decided="identifier literals inside quote! bodies vs user identifiers (macro hygiene); spawn kinds beyond those 6 programs")
 
 P("C19", "other", kani={"timeout": "600s", "compile_clause": True},
   explanation="bounds claim only: programs over move-only (no Clone, counting Drop), non-Send (Rc) and stack-borrowing (&, &mut, non-'static) values must type-check through the real expansion of the four non-spawning executable kinds (rustc's type system is the checker; a rustc error originating in the macro is the violation) and run to the documented value under Kani with live()==0 at the end",
